@@ -26,6 +26,8 @@ import (
 	"github.com/form3tech-oss/f1/v2/internal/progress"
 	"github.com/form3tech-oss/f1/v2/internal/run"
 	"github.com/form3tech-oss/f1/v2/internal/trigger/api"
+	"github.com/form3tech-oss/f1/v2/internal/trigger/file"
+	"github.com/form3tech-oss/f1/v2/internal/ui"
 	"github.com/form3tech-oss/f1/v2/internal/verifharness/hlib"
 	"github.com/form3tech-oss/f1/v2/internal/verifshim/vrt"
 	"github.com/form3tech-oss/f1/v2/internal/verifshim/vsync"
@@ -243,6 +245,55 @@ func poolStop(workersN, requested int) vrt.Scenario {
 	return vrt.Scenario{Name: name, Body: body, Post: post, Memo: true, Horizon: time.Minute, Setup: func() { vatomict.Active = false }}
 }
 
+// stagesStop: the same question one level up, for config-file mode. The caller's
+// context ends in the middle of a stage while a tick is superseding pending work
+// (and reporting it dropped). Run.run takes a run as complete when the trigger
+// function has returned and the pool manager announces completion: nothing may be
+// reported after that.
+func stagesStop() vrt.Scenario {
+	name := "stages-stop/context-ends-mid-stage/totals-taken-when-trigger-returned-and-pool-complete"
+	body := func() {
+		x := &stopWorld{stats: &progress.Stats{}, reg: prometheus.NewRegistry()}
+		sw = x
+		var gate vatomic.Bool
+		m := metrics.NewInstance(x.reg, true, nil)
+		sc := &scenarios.Scenario{Name: "s", RunFn: func(*f1testing.T) {
+			vrt.WaitUntil("gate", func() bool { return gate.Peek() })
+		}}
+		as := workers.NewActiveScenario(sc, m, x.stats, hlib.DiscardLogger(), hlib.DiscardLogrus())
+		mgr := workers.New(0, as)
+		stage := file.VerifStage{Rate: func(time.Time) int { return 3 }, StageDuration: 2 * time.Second, IterationDuration: 100 * time.Millisecond}
+		ctx, cancel := vctx.WithCancel(vctx.Background())
+		defer cancel()
+		returned := false
+		vrt.GoNamed("trigger", func() {
+			file.VerifStagesWorkerOf([]file.VerifStage{stage})(ctx, ui.NewDiscardOutput(), mgr, options.RunOptions{Concurrency: 1})
+			returned = true
+		})
+		vtime.Sleep(200 * time.Millisecond) // ticks at 0 and 100 ms; the one at 200 ms is due now
+		cancel()
+		gate.Store(true)
+		vrt.WaitUntil("trigger-returned", func() bool { return returned })
+		vrt.Recv(mgr.WaitForCompletion())
+		tot := x.stats.Total()
+		x.atCompletion = tot.DroppedIterationCount
+		x.startedAtComplete = tot.SuccessfulIterationDurations.Count + tot.FailedIterationDurations.Count
+	}
+	post := func(o *vrt.Outcome) {
+		classify(o, "C01")
+		if o.Status != vrt.StOK {
+			return
+		}
+		final := sw.stats.Total().DroppedIterationCount
+		_, _, md := hlib.IterationCounts(sw.reg)
+		if sw.atCompletion != final || md != final {
+			o.Fail("C01/final-counts", "dropped-recorded-after-completion/config-file-stage", fmt.Sprintf("when the trigger had returned and the pool announced completion the totals had %d dropped; afterwards %d (metric %d)", sw.atCompletion, final, md))
+		}
+		o.Sig = fmt.Sprintf("started=%d dropped=%d", sw.startedAtComplete, final)
+	}
+	return vrt.Scenario{Name: name, Body: body, Post: post, Memo: true, Horizon: time.Minute, Setup: func() { vatomict.Active = false }}
+}
+
 func labelsN(n int) map[string]string {
 	m := map[string]string{}
 	for i := 0; i < n; i++ {
@@ -338,6 +389,10 @@ func wholeRun(mode, rate string, maxDur time.Duration, conc int, bodySleep time.
 		if mode == "constant" {
 			rs.Flags = map[string]string{"rate": rate, "distribution": "none"}
 		}
+		if mode == "file" {
+			// one long constant stage; the run's own deadline ends it mid-stage
+			rs.FileYAML = fmt.Sprintf("scenario: s\nlimits:\n  max-duration: %s\n  concurrency: %d\n  max-iterations: %d\n  ignore-dropped: true\nstages:\n- duration: 5s\n  mode: constant\n  rate: %s\n  jitter: 0\n  distribution: none\n", maxDur, conc, limit, rate)
+		}
 		rs.ScenarioFn = func(t *f1testing.T) f1testing.RunFn {
 			return func(t *f1testing.T) {
 				id, _ := strconv.Atoi(t.Iteration)
@@ -426,6 +481,8 @@ func scenariosFor(tier string) []vrt.Scenario {
 		addRun(1, wholeRun("constant", "2/500ms", 1010*time.Millisecond, 1, 600*time.Millisecond, 0)) // with dropped iterations
 		// the worker becomes idle exactly when the next tick supersedes what is pending
 		addRun(2, wholeRun("constant", "2/500ms", 1260*time.Millisecond, 1, 500*time.Millisecond, 0))
+		// config-file mode: the deadline ends the stage at the instant a tick supersedes pending work
+		addRun(2, wholeRun("file", "3/100ms", 310*time.Millisecond, 1, 250*time.Millisecond, 0))
 		// lean: one iteration, the progress tick and the end of the run at the same instant; three deviations
 		addRun(2, wholeRun("constant", "1/1s", 1010*time.Millisecond, 1, 0, 0))
 	} else {
@@ -437,6 +494,7 @@ func scenariosFor(tier string) []vrt.Scenario {
 		addRun(2, wholeRun("users", "", 2010*time.Millisecond, 2, 700*time.Millisecond, 0))
 		addRun(2, wholeRun("constant", "2/500ms", 1010*time.Millisecond, 1, 600*time.Millisecond, 0)) // with dropped iterations
 		addRun(3, wholeRun("constant", "2/500ms", 1260*time.Millisecond, 1, 500*time.Millisecond, 0))
+		addRun(3, wholeRun("file", "3/100ms", 310*time.Millisecond, 1, 250*time.Millisecond, 0))
 		addRun(2, wholeRun("constant", "3/500ms", 1260*time.Millisecond, 2, 500*time.Millisecond, 0))
 	}
 	add := func(b int, snaps int, scripts ...string) {
@@ -446,6 +504,14 @@ func scenariosFor(tier string) []vrt.Scenario {
 	}
 	for _, c := range [][2]int{{1, 3}, {2, 4}} {
 		sc := poolStop(c[0], c[1])
+		sc.Bound = 2
+		if tier != "quick" {
+			sc.Bound = 3
+		}
+		out = append(out, sc)
+	}
+	{
+		sc := stagesStop()
 		sc.Bound = 2
 		if tier != "quick" {
 			sc.Bound = 3
